@@ -25,7 +25,11 @@ def run(ctx):
         'R5 W/m <-> W/cm scale tags: file coefficients / 100 and bounds * 100 '
         'on input, * 100 at every evaluation site',
         'R6 the sweep counter indexes the precomputed tables and advances by '
-        'one on that path only; Reactor.reset zeroes it']
+        'one on that path only; Reactor.reset zeroes it',
+        'R7 premise of the per-cell renormalisation: no axial step straddles '
+        'a power-cell boundary (the boundary merge contains the power mesh '
+        'and _check_dz stops at the first crossed boundary; rules shared '
+        'with C05.R2/R3)']
     ctx.not_decided += ['equality of the midpoint sum with the integral as '
                         'numbers', 'linearity of temperatures in power']
     r1(ctx)
@@ -34,6 +38,11 @@ def run(ctx):
     r4(ctx)
     r5(ctx)
     r6(ctx)
+    from . import c05
+    sub = ctx.alias({'C05.R2': 'C03.R7', 'C05.R3': 'C03.R7'})
+    c05.r2(sub)
+    c05.r3(sub)
+    ctx.min_instances('C03.R7', 10)
     ctx.min_instances('C03.R1', 3)
     ctx.min_instances('C03.R2', 3)
     ctx.min_instances('C03.R3', 6)
